@@ -16,6 +16,7 @@ def genFacts9 : Facts9 :=
     required := Generated.handleDictRequired
     defaults := Generated.handleDictDefaults
     mutations := Generated.matchMutations
-    fresh := Generated.matchFresh }
+    fresh := Generated.matchFresh
+    identity := Generated.identityMarkers }
 
 end Glom.C09
